@@ -349,9 +349,9 @@ def _(c):
 def _grid_register(tier, rng):
     """all sequences of length <= 3 over {create station S_k, create orbit-attached frame O_k (QSW), create orbit frame (inertial axes)},
     each interleaved with the full matrix of conversions among the 10 built-in frames at 2 dates"""
-    kinds = ["station", "orbit_qsw", "orbit_inertial"]
+    kinds = ["station", "orbit_qsw", "orbit_inertial", "orbit_given_in_the_previous_new_frame"]
     for L in (1, 2, 3):
-        for seq in itertools.product(range(3), repeat=L):
+        for seq in itertools.product(range(4), repeat=L):
             yield {"len": L, **{f"k{i}": seq[i] for i in range(L)}}
 
 
@@ -382,7 +382,8 @@ def _(c):
     base = matrix()
     L = c.integer("len")
     tag = "".join(str(c.integer(f"k{i}")) for i in range(L))
-    ok_same, ok_new, ok_name = True, True, True
+    ok_same, ok_new, ok_name, ok_origin = True, True, True, True
+    fr = None
     for i in range(L):
         kind = c.integer(f"k{i}")
         nm = f"REG{tag}_{i}"
@@ -390,10 +391,17 @@ def _(c):
             fr = create_station(nm, (10.0 + 7 * i, -20.0 + 11 * i, 50.0))
             ok_name = ok_name and hasattr(orient.Orientation, f"{nm}_to_ITRF")
         else:
-            ref = StateVector(x, dates[0], "cartesian", "EME2000")
+            xi = [v * (1 + 0.01 * i) for v in x]
+            ref = StateVector(xi, dates[0], "cartesian", "EME2000")
+            if kind == 3 and fr is not None:
+                # the reference orbit is given in the frame created just before (a station, or another orbit's frame): the chain of centres gets deeper
+                ref = ref.copy(frame=fr)
             fr = orbit2frame(nm, ref, orientation="QSW" if kind == 1 else None)
             if kind == 1:
                 ok_name = ok_name and hasattr(orient.Orientation, f"{nm}_to_EME2000")
+            # the origin of an orbit-attached frame is where its orbit is
+            origin = StateVector([0.0] * 6, dates[0], "cartesian", fr).copy(frame="EME2000")
+            ok_origin = ok_origin and bool(np.allclose(np.asarray(origin, dtype=float)[:3], xi[:3], rtol=0, atol=1e-3))
         ok_same = ok_same and matrix() == base
         for b in names:
             sv = StateVector(x, dates[0], "cartesian", b)
@@ -403,3 +411,53 @@ def _(c):
     c.ensure("existing_conversions_unchanged", ok_same)
     c.ensure("new_frame_round_trips", ok_new)
     c.ensure("provider_named", ok_name)
+    c.ensure("origin_of_orbit_frame_is_its_orbit", ok_origin)
+
+
+FR = "beyond.frames.frames"
+
+
+@contract("C20", "orbit2frame", funcs=[f"{FR}:orbit2frame"], level="proof",
+          assumptions=["Center, Frame and LocalOrbitalOrientation constructors abstracted as recorders (their own contracts: C20.register bounded, C02.center, C17)"])
+def _(c):
+    """proved: orbit2frame(name, ref, orientation, parent) creates one centre `name` (body of the parent's centre) linked exactly once, to the centre of the frame
+    the reference orbit is expressed in, with that frame's orientation and the orbit itself as offset -- so the stored offset is always expressed relative to the node
+    it is linked to; the frame's orientation is the orbit frame's when none is asked, a LocalOrbitalOrientation(name, ref, QSW|TNW, parent) otherwise (any case), and
+    any other orientation is refused before anything is created"""
+    calls = []
+
+    class Rec:
+        def __init__(self, kind, *a, **k):
+            self.kind, self.a, self.k = kind, a, k
+            calls.append(self)
+
+        def add_link(self, *a):
+            calls.append(("add_link", self, a))
+
+    ref_center, ref_orient = object(), object()
+    par_center = types.SimpleNamespace(body="BODY")
+    ref = types.SimpleNamespace(frame=types.SimpleNamespace(center=ref_center, orientation=ref_orient))
+    parent = types.SimpleNamespace(center=par_center, orientation=object())
+    w = c.world(names={FR: {"center": types.SimpleNamespace(Center=lambda *a, **k: Rec("Center", *a, **k)),
+                            "orient": types.SimpleNamespace(LocalOrbitalOrientation=lambda *a, **k: Rec("LOF", *a, **k)),
+                            "Frame": lambda *a, **k: Rec("Frame", *a, **k)}})
+    f = w.fn(f"{FR}:orbit2frame")
+    o = c.choice("orientation", [None, "QSW", "TNW", "qsw", "Tnw", "XYZ"])
+    if o == "XYZ":
+        c.ensure("unknown_orientation.refused", c.raises(ValueError, lambda: f("N", ref, orientation=o, parent=parent)))
+        c.ensure("unknown_orientation.nothing_created", calls == [])
+        return
+    res = f("N", ref, orientation=o, parent=parent)
+    centers = [x for x in calls if isinstance(x, Rec) and x.kind == "Center"]
+    links = [x for x in calls if isinstance(x, tuple)]
+    frames_ = [x for x in calls if isinstance(x, Rec) and x.kind == "Frame"]
+    lofs = [x for x in calls if isinstance(x, Rec) and x.kind == "LOF"]
+    c.ensure("one_centre_named_after_the_frame", len(centers) == 1 and centers[0].a == ("N",) and centers[0].k == {"body": "BODY"})
+    c.ensure("linked_once_to_the_centre_the_offset_is_relative_to", len(links) == 1 and links[0][1] is centers[0] and links[0][2][0] is ref_center)
+    c.ensure("offset_orientation_is_the_orbit_frame_s", len(links) == 1 and links[0][2][1] is ref_orient and links[0][2][2] is ref)
+    c.ensure("frame_returned", len(frames_) == 1 and res is frames_[0] and frames_[0].a[0] == "N" and frames_[0].a[2] is centers[0])
+    if o is None:
+        c.ensure("inertial_axes.orientation_of_the_orbit_frame", frames_[0].a[1] is ref_orient and lofs == [])
+    else:
+        c.ensure("local_axes.orientation", len(lofs) == 1 and frames_[0].a[1] is lofs[0] and lofs[0].a[0] == "N" and lofs[0].a[1] is ref
+                 and str(lofs[0].a[2]).upper() == o.upper() and lofs[0].a[3] is parent)
